@@ -267,7 +267,18 @@ class PlanJoinTablesQuery:
         # use limit for first table?
         # if only models
         use_limit = False
-        if query_in.having is None or query_in.group_by is None and query_in.limit is not None:
+
+        def is_aggregate(node, **kwargs):
+            if isinstance(node, ast.Function) and node.op.lower() in ('count', 'sum', 'min', 'max', 'avg', 'std'):
+                aggregates.append(node)
+        aggregates = []
+        query_traversal(list(query_in.targets), is_aggregate)
+
+        # LIMIT of a grouped / DISTINCT / aggregated query counts result rows, not rows of the first table
+        if (
+            query_in.having is None and query_in.group_by is None
+            and not query_in.distinct and len(aggregates) == 0
+        ):
 
             join = None
             use_limit = True
